@@ -14,7 +14,6 @@ generator (never guessed from the exception text alone):
                              whose return annotation is not a plain class: a parametrised generic (List[str],
                              Dict[str, bool], Optional[str]) or a string (module with `from __future__ import annotations`)
   nt-mutable-default         a reachable NamedTuple has a list default
-  default-ignores-field-strategy  a reachable field of a type that is serializable only through its FIELD-level strategy has a default
   default-over-string-annotated-namedtuple  a defaulted dataclass field whose type contains a NamedTuple with string annotations (same
                              or another module): the default is rendered by compiling a serializer inside mashumaro.jsonschema.schema,
                              which cannot resolve them
@@ -726,8 +725,6 @@ class Fam:
         elif x < 0.26:
             self.kf_wanted = "field-override-container"
         elif x < 0.28:
-            self.kf_wanted = "default-ignores-field-strategy"
-        elif x < 0.30:
             self.kf_wanted = "default-over-string-annotated-namedtuple"
         self.future_annotations = r.random() < float(__import__("os").environ.get("C20_FUT", "0.12"))
         n = n_classes or r.randrange(1, 6)
@@ -736,7 +733,7 @@ class Fam:
             self.gen_class(nm, names[:i], names[i + 1:])
         if r.random() < 0.14 or self.kf_wanted == "default-over-string-annotated-namedtuple":
             self.gen_xmod_holder(f"K{len(self.order)}")
-        if r.random() < 0.18 or self.kf_wanted == "default-ignores-field-strategy":
+        if r.random() < 0.2:
             self.gen_thirdparty_holder(f"K{len(self.order)}")
         return self
 
@@ -783,8 +780,7 @@ class Fam:
         """a dataclass with fields of the third-party type lib.Pt, serializable only through a strategy that comes from
         Config.serialization_strategy, from Config.dialect, from both, or from the field; defaults of every form."""
         r = self.r
-        kf = self.kf_wanted == "default-ignores-field-strategy" and self.kf is None
-        mode = "field" if kf else r.choice(["config", "dialect", "dialect", "both", "field"])
+        mode = r.choice(["config", "dialect", "dialect", "both", "field", "field"])
         mixin = r.choice(["", "", "DataClassDictMixin", "DataClassORJSONMixin"])
         body, fields = [], []
         if mode == "field":
@@ -792,9 +788,8 @@ class Fam:
             body.append(f"    p0: Pt = field(metadata=field_options({opt}))")
             if r.random() < 0.5:
                 body.append(f"    p1: Pt = field(default_factory=Pt, metadata=field_options({opt}))")
-            if kf:
+            if r.random() < 0.7:
                 body.append(f"    p2: Pt = field(default=Pt(1), metadata=field_options({opt}))")
-                self.kf = "default-ignores-field-strategy"
         else:
             forms = [("Pt", "Pt(1)"), ("Optional[Pt]", "None"), ("Optional[Pt]", "Pt(2)"), ("Tuple[Pt, ...]", "(Pt(1), Pt())"), ("Tuple[Pt, int]", "(Pt(3), 1)"),
                      ("List[Pt]", None), ("Dict[str, Pt]", None), ("Pt", None), ("Union[Pt, None, int]", "Pt(4)"), ("Final[Pt]", "Pt(5)")]
@@ -830,7 +825,7 @@ class Fam:
         if cfg:
             body.append("    class Config(BaseConfig):")
             body.extend(cfg)
-        self._holder(name, pre + ["@dataclass", f"class {name}" + (f"({mixin})" if mixin else "") + ":"] + body, fields, tp_field_default=kf)
+        self._holder(name, pre + ["@dataclass", f"class {name}" + (f"({mixin})" if mixin else "") + ":"] + body, fields)
 
     def source(self) -> str:
         return ("from __future__ import annotations\n" if self.future_annotations else "") + PRELUDE + "\n".join(self.lines) + "\n"
@@ -882,7 +877,6 @@ class Fam:
             "cyclic": self.cyclic(t),
             "selftype": any(self.classes[c]["selfref"] for c in reach) or t.selfref,
             "slots_hit": any(self.classes[c].get("slots_hit") for c in reach),
-            "tp_field_default": any(self.classes[c].get("tp_field_default") for c in reach),
             "nt_fwd_default": any(self.classes[c].get("nt_fwd_default") for c in reach),
             "nt_mutable": ("NT3" in t.src) or any("NT3" in f["type"].src for c in reach for f in self.classes[c]["all_fields"]),
             "field_strategy_unannotated": self.kf == "field-strategy-unannotated" and bool(reach),
